@@ -216,8 +216,8 @@ PROPS["C20"] = dict(
 )
 
 PROPS["C15"] = dict(
-    modules=["Proofs.C15", "Proofs.C15Locks", "Proofs.C15Refresh"],
-    theorems=["Goflow.C15.decodeFlow_congr", "Goflow.C15.parallel_eq_sequential", "Goflow.C15.per_datagram_order",
+    modules=["Proofs.C15", "Proofs.C15Locks", "Proofs.C15Refresh", "Proofs.C15Writes"],
+    theorems=["Goflow.C15Writes.shared_fields_written_before_workers", "Goflow.C15Writes.per_datagram_writes_are_map_stores", "Goflow.C15.decodeFlow_congr", "Goflow.C15.parallel_eq_sequential", "Goflow.C15.per_datagram_order",
               "Goflow.C15.sflow_readOnly", "Goflow.C15.skeleton_matches",
               "Goflow.C15Locks.load_guarded", "Goflow.C15Locks.store_guarded", "Goflow.C15Locks.lock_discipline", "Goflow.C15Locks.maps_only_grow",
               "Goflow.C15Refresh.decodeFlow_congrL", "Goflow.C15Refresh.refresh_readOnly", "Goflow.C15Refresh.refresh_readOnly_any",
